@@ -423,8 +423,9 @@ def main(argv):
         "wall_s": round(time.time() - t0, 2),
         "violations": len(violations) + (1 if (broken and not violations) else 0),
     }
-    os.makedirs(os.path.join(VERIF, "evidence"), exist_ok=True)
-    with open(os.path.join(VERIF, "evidence", f"{prop}.json"), "w") as fh:
+    evdir = os.environ.get("VERIF_EVIDENCE_DIR") or os.path.join(VERIF, "evidence")   # seedtest redirects this
+    os.makedirs(evdir, exist_ok=True)
+    with open(os.path.join(evdir, f"{prop}.json"), "w") as fh:
         json.dump(evidence, fh, indent=1, default=str)
     if rc == 0:
         print(f"OK property={prop} tier={tier} theorems={len(thm_obl)} ties={len(tie_obl)} cases={evaluations} "
